@@ -1269,9 +1269,13 @@ class Engine:
                     sl = self.ex.fresh(f'[{em.group(1)}]' if em else '[?]', v.name + '.slice')
                     v.fields['__slice'] = Cell(sl)
                 return RefV(v.fields['__slice'])
-        mm = re.match(r'^core::slice::<impl \[(.*)\]>::get::<usize>$', c)
+        mm = re.match(r'^core::slice::<impl \[(.*)\]>::(get|get_mut)::<usize>$', c)
         if mm and isinstance(args[1], IntV) and z3.is_int_value(z3.simplify(args[1].e)):
             lst = args[0]; lv = self.deref_val(lst); k_ = z3.simplify(args[1].e).as_long()
+            am_ = re.match(r'^\[(.*); (\d+)\]$', lv.ty.strip()) if isinstance(lv, StructV) else None
+            if am_ and isinstance(lst, RefV):        # fixed array seen through a slice reference
+                if k_ >= int(am_.group(2)): return EnumV('Option', 0, {})
+                return EnumV('Option', 1, {1: {0: RefV(lst.cell, lst.path + (('i', k_),))}})
             if isinstance(lv, StructV) and '__len' in lv.fields and isinstance(lst, RefV):
                 if k_ not in lv.fields: lv.fields[k_] = self.ex.fresh(lv.fields.get('__elemty', mm.group(1)), f'{lv.name}[{k_}]')
                 d_ = z3.simplify(z3.If(lv.fields['__len'].e > k_, 1, 0))
